@@ -1167,6 +1167,9 @@ def xcheck_ok(case):
         return False            # 255-bit exponentiation in Fq12
     if op == 'pt_decoded_rel':
         return case['args'][1][0] < 1000     # square roots / subgroup checks on 255..381-bit Z: toy curves only
+    if op == 'poly_rel' and case['args'][1][0] > 1000:
+        # truly sparse operands of degree 100..500 over Fr: minutes in the kernel (one such case: 460 s)
+        return max(case['args'][7][0::2] + case['args'][8][0::2] + [0]) <= 40
     if op in ('fld_rel', 'fld_sort', 'gt_rel', 'fld_params', 'gt_params'):
         kind, N = case['args'][0][1], case['args'][0][2]
         if kind >= 6:
